@@ -454,6 +454,8 @@ def densify(coords: CoordList, resolution: float) -> CoordList:
     """
     Adds points so they are at most `resolution` units apart.
     """
+    # plain float: running distance below must not alias, or stay in the dtype of, a numpy value
+    resolution = float(resolution)
     if not resolution > 0:
         raise ValueError(f"Densify resolution must be positive, got {resolution}")
     if len(coords) < 2:  # empty geometry
